@@ -2,6 +2,12 @@
 
 package storage
 
+import (
+	"fmt"
+	"io"
+	"net/textproto"
+)
+
 // VerifWriteField sends an arbitrary form field through the upload's
 // multipart stream (used by the C20 harness to commit a protocol violation).
 func (u *Upload) VerifWriteField(name, val string) error {
@@ -9,4 +15,18 @@ func (u *Upload) VerifWriteField(name, val string) error {
 		return nil
 	}
 	return u.mpw.WriteField(name, val)
+}
+
+// VerifCreateQPFile starts a "file" part whose body the caller sends in
+// quoted-printable transfer encoding (a legal multipart/form-data part that
+// the server's multipart reader decodes transparently).
+func (u *Upload) VerifCreateQPFile(name string) (io.Writer, error) {
+	if u.err != nil {
+		return nil, u.err
+	}
+	h := make(textproto.MIMEHeader)
+	h.Set("Content-Disposition", fmt.Sprintf(`form-data; name="file"; filename=%q`, name))
+	h.Set("Content-Type", "application/octet-stream")
+	h.Set("Content-Transfer-Encoding", "quoted-printable")
+	return u.mpw.CreatePart(h)
 }
